@@ -1,7 +1,7 @@
 (* Dispatch table: entry name -> model entry point.  The harness names the entry on every
    case line; the same table is used by the extracted driver and by the kernel cross-check. *)
 Require Import Gengo.Base.Str Gengo.Base.Sexp.
-Require Gengo.Model.Tags Gengo.Model.JsonTag Gengo.Model.Tracker Gengo.Model.Namer Gengo.Model.Order Gengo.Model.ImportBoss Gengo.Model.Exec.
+Require Gengo.Model.Tags Gengo.Model.JsonTag Gengo.Model.Tracker Gengo.Model.Namer Gengo.Model.Order Gengo.Model.ImportBoss Gengo.Model.Exec Gengo.Model.Snippet.
 
 Definition entries : list (string * (sexp -> option sexp)) := [
   ("C08.old", Tags.run_old);
@@ -30,7 +30,9 @@ Definition entries : list (string * (sexp -> option sexp)) := [
   ("C13.exec", Exec.run_exec);
   ("C13.tracker", Exec.run_tracker);
   ("C13.body", Exec.run_body);
-  ("C13.assemble", Exec.run_assemble)
+  ("C13.assemble", Exec.run_assemble);
+  ("C15.chain", Snippet.run_chain);
+  ("C15.args", Snippet.run_args)
 ]%string.
 
 Fixpoint find_entry (name : str) (l : list (string * (sexp -> option sexp))) : option (sexp -> option sexp) :=
